@@ -71,6 +71,9 @@ def san_flags(cfg):
         return ["-fsanitize=thread", "-fno-omit-frame-pointer"]
     return []
 
+# maintenance (coverage.py): VERIF_COV=1 compiles the library objects of the non-TSan builds with gcov instrumentation
+COV = os.environ.get("VERIF_COV") == "1"
+
 def config_header(cfg):
     tpl = open(os.path.join(REPO, "m4ri", "m4ri_config.h.in")).read()
     sub = {
@@ -99,13 +102,16 @@ def build(name, verbose=False):
         if name in _built:
             return _built[name]
         cfg = CONFIGS[name]
+        cov = COV and cfg["san"] != "tsan" and cfg["cc"] == "gcc"
+        if cov:
+            cfg = dict(cfg, cov=1)
         h = hashlib.sha256()
         h.update(json.dumps(cfg, sort_keys=True).encode())
         for f in lib_sources() + harness_sources():
             h.update(f.encode())
             h.update(open(f, "rb").read())
         h.update(b"v7")
-        tag = "%s-%s" % (name, h.hexdigest()[:14])
+        tag = "%s%s-%s" % (name, "_cov" if cov else "", h.hexdigest()[:14])
         d = os.path.join(BUILD, tag)
         exe = os.path.join(d, "mon")
         if os.path.exists(exe) and os.path.exists(os.path.join(d, "OK")):
@@ -136,7 +142,7 @@ def build(name, verbose=False):
             if f.endswith(".c"):
                 o = os.path.join(d, "lib_" + f[:-2] + ".o")
                 libobjs.append(o)
-                jobs.append([cc] + common + sflags + ["-c", os.path.join(d, "m4ri", f), "-o", o])
+                jobs.append([cc] + common + sflags + (["--coverage"] if cov else []) + ["-c", os.path.join(d, "m4ri", f), "-o", o])
         o = os.path.join(d, "libshim.o")
         libobjs.append(o)
         jobs.append([cc] + common + sflags + ["-c", os.path.join(HARNESS, "libshim.c"), "-o", o])
@@ -189,7 +195,7 @@ def build(name, verbose=False):
         if r.returncode != 0:
             sys.stderr.write("HARNESS-FAILURE: ld -r failed\n" + r.stdout)
             raise SystemExit(2)
-        link = [cc] + sflags + (["-fopenmp"] if cfg["omp"] else []) + ["-rdynamic"] + hobjs + [libw, "-o", exe, "-lm", "-lpng", "-lz", "-lpthread", "-ldl"]
+        link = [cc] + sflags + (["-fopenmp"] if cfg["omp"] else []) + (["--coverage"] if cov else []) + ["-rdynamic"] + hobjs + [libw, "-o", exe, "-lm", "-lpng", "-lz", "-lpthread", "-ldl"]
         r = run(link)
         if r.returncode != 0:
             sys.stderr.write("HARNESS-FAILURE: link failed for %s\n%s\n" % (name, r.stdout[-6000:]))
